@@ -199,6 +199,33 @@ def handleEqual (cmd : String) (rest : List String) : Option String :=
         | none => some "bad-op"
       | none => some "bad-op"
     | _ => some "bad-op"
+  | "filterdoc" =>
+    -- filterdoc <white 0|1> <ntags> <hex tag>^ntags <same 0|1> <k> <forest = records of the document>
+    --   Filter(object k, the same document | an empty document, Whitelist/BlacklistTagFilter(tags))
+    match rest with
+    | white :: nt :: more =>
+      match nt.toNat? with
+      | some nt =>
+        match (more.take nt).mapM fromHex, more.drop nt with
+        | some tags, same :: k :: more' =>
+          match parseForest more', k.toNat? with
+          | some (f, []), some k =>
+            let lab := labelList 0 f
+            match findRec k lab.1 with
+            | none => some "bad-op"
+            | some (r, t) =>
+              let dst := if same == "1" then DocSt.ofRecords lab.1 else DocSt.ofRecords []
+              let out := filterIntoDoc (ctxOf r) dst lab.2 (tagFilter (white == "1") tags) t
+              match out.1 with
+              | .nil => some "nil"
+              | .panic => some "panic"
+              | .ok res =>
+                let c := res.copy
+                some s!"ok first={lab.2} n={c.ids.length} t={showNode c.erase} fam={showNats ((roleIds c).map fun _ => lab.2 + c.ids.length)} doc={(docBearing c).length} {showDocSt out.2}"
+          | _, _ => some "bad-op"
+        | _, _ => some "bad-op"
+      | none => some "bad-op"
+    | _ => some "bad-op"
   | "deqo" =>
     -- deqo <forest of 0|1> <forest of 0|1> : DeepEqual where either side may be nil
     match parseOpt rest with
